@@ -769,17 +769,188 @@ theorem descrFrame_eq : DescrFrame EqR where
 /-- the catalogs agree up to the order of `servers`, `types`, `tags`; the names of the first are unique -/
 def FSim : Frames := ⟨PermNd (·.name), fun T T' => T'.Perm T, PermNd (·.name)⟩
 
+mutual
+  theorem allT_true : ∀ t : BTree, allT (fun _ => true) t = true
+    | .node d kids => by rw [allT, allF_true kids]; rfl
+  theorem allF_true : ∀ ts : List BTree, allF (fun _ => true) ts = true
+    | [] => by rw [allF]
+    | t :: r => by rw [allF, allT_true t, allF_true r]; rfl
+end
+
 theorem sim_lift (banned : List Kind) (anc : List Up) (ts : List BTree) {c c' : Cat} (h : FSim.Rel c c') :
-    RRel FSim.Rel (addForest banned anc ts c) (addForest banned anc ts c') := by
-  have hall : ∀ ts : List BTree, allF (fun _ => true) ts = true := by
-    intro ts
-    apply allF.induct (fun _ => true) (motive_1 := fun t => allT (fun _ => true) t = true)
-      (motive_2 := fun ts => allF (fun _ => true) ts = true)
-    · intro d kids ih; rw [allT, ih]; rfl
-    · rw [allF]
-    · intro t r h1 h2; rw [allF, h1, h2]; rfl
-  exact lift (F := FSim) tagFrame_perm banned (fun _ => true)
+    RRel FSim.Rel (addForest banned anc ts c) (addForest banned anc ts c') :=
+  lift (F := FSim) tagFrame_perm banned (fun _ => true)
     (fun d anc _ _ => ⟨fun _ => typeFrame_perm, fun _ => serverFrame_perm, fun _ _ _ _ _ => descrFrame_perm⟩)
-    anc ts c c' (hall ts) (fun _ _ => rfl) h
+    anc ts c c' (allF_true ts) (fun _ _ => rfl) h
+
+/-- the second catalog is the first with another list of types; the first has the types `T0` -/
+def FTypes (T0 T1 : List TypeM) : Frames := ⟨EqR, fun T T' => T = T0 ∧ T' = T1, EqR⟩
+
+theorem FTypes.start (c : Cat) (T1 : List TypeM) : (FTypes c.types T1).Rel c { c with types := T1 } :=
+  ⟨⟨rfl, rfl, rfl, rfl, rfl, rfl⟩, rfl, ⟨rfl, rfl⟩, rfl⟩
+
+theorem FTypes.out {T0 T1 : List TypeM} {d d' : Cat} (h : (FTypes T0 T1).Rel d d') :
+    d' = { d with types := T1 } ∧ d.types = T0 := by
+  obtain ⟨⟨h1, h2, h3, h4, h5, h6⟩, hs, ⟨ht, ht'⟩, hg⟩ := h
+  have hs : d'.servers = d.servers := hs
+  have hg : d'.tags = d.tags := hg
+  cases d; cases d'
+  simp_all
+
+theorem types_lift (banned : List Kind) (anc : List Up) (ts : List BTree) (c : Cat) (T1 : List TypeM)
+    (hp : allF (fun d => d.kind != .Type) ts = true) (ha : ∀ u ∈ anc, (u.d.kind != .Type) = true) :
+    RRel (FTypes c.types T1).Rel (addForest banned anc ts c) (addForest banned anc ts { c with types := T1 }) :=
+  lift (F := FTypes c.types T1) tagFrame_eq banned (fun d => d.kind != .Type)
+    (fun d anc hd _ => ⟨fun hk => by simp [hk] at hd, fun _ => serverFrame_eq, fun _ _ _ _ _ => descrFrame_eq⟩)
+    anc ts c _ hp ha (FTypes.start c T1)
+
+/-- the same for the servers -/
+def FServers (S0 S1 : List ServerM) : Frames := ⟨fun S S' => S = S0 ∧ S' = S1, EqR, EqR⟩
+
+theorem FServers.start (c : Cat) (S1 : List ServerM) : (FServers c.servers S1).Rel c { c with servers := S1 } :=
+  ⟨⟨rfl, rfl, rfl, rfl, rfl, rfl⟩, ⟨rfl, rfl⟩, rfl, rfl⟩
+
+theorem FServers.out {S0 S1 : List ServerM} {d d' : Cat} (h : (FServers S0 S1).Rel d d') :
+    d' = { d with servers := S1 } ∧ d.servers = S0 := by
+  obtain ⟨⟨h1, h2, h3, h4, h5, h6⟩, ⟨hs, hs'⟩, ht, hg⟩ := h
+  have ht : d'.types = d.types := ht
+  have hg : d'.tags = d.tags := hg
+  cases d; cases d'
+  simp_all
+
+def noServerKind (d : BDir) : Bool := d.kind != .Server && d.kind != .BaseURL
+
+theorem servers_lift (banned : List Kind) (anc : List Up) (ts : List BTree) (c : Cat) (S1 : List ServerM)
+    (hp : allF noServerKind ts = true) (ha : ∀ u ∈ anc, noServerKind u.d = true) :
+    RRel (FServers c.servers S1).Rel (addForest banned anc ts c)
+      (addForest banned anc ts { c with servers := S1 }) :=
+  lift (F := FServers c.servers S1) tagFrame_eq banned noServerKind
+    (fun d anc hd _ => ⟨fun _ => typeFrame_eq,
+      fun hk => by rcases hk with hk | hk <;> simp [noServerKind, hk] at hd,
+      fun _ _ _ _ _ => descrFrame_eq⟩)
+    anc ts c _ hp ha (FServers.start c S1)
+
+/-- the second catalog is the first with the description `text` on the tag `n`, which the first catalog has
+with the description `x0` -/
+def descrSet (n text : Bytes) (x : TagM) : TagM := if x.name == n then { x with descr := some text } else x
+
+def QDescr (n text : Bytes) (x0 : Option Bytes) (G G' : List TagM) : Prop :=
+  G' = G.map (descrSet n text) ∧ (G.find? (fun x => x.name == n)).map (·.descr) = some x0
+
+theorem descrSet_name (n text : Bytes) (x : TagM) : (descrSet n text x).name = x.name := by
+  unfold descrSet; split <;> rfl
+
+theorem tagFrame_descr (n text : Bytes) (x0 : Option Bytes) : TagFrame (QDescr n text x0) where
+  find := by
+    intro G G' h m
+    rw [h.1, List.find?_map]
+    have : ((fun x : TagM => x.name == m) ∘ descrSet n text) = (fun x => x.name == m) := by
+      funext x; simp [descrSet_name]
+    rw [this]
+    cases G.find? (fun x => x.name == m) with
+    | none => rfl
+    | some t => simp only [Option.map_some]; unfold descrSet; split <;> rfl
+  upd := by
+    intro G G' h m i
+    refine ⟨?_, ?_⟩
+    · rw [h.1, List.map_map, List.map_map]
+      apply List.map_congr_left
+      intro x _
+      simp only [Function.comp, descrSet_name]
+      unfold descrSet
+      by_cases h1 : (x.name == m) = true <;> by_cases h2 : (x.name == n) = true <;>
+        simp [h1, h2, attach_name] <;> (unfold attach; split <;> rfl)
+    · rw [List.find?_map]
+      have : ((fun x : TagM => x.name == n) ∘ fun x => if (x.name == m) = true then attach i x else x)
+          = (fun x => x.name == n) := by
+        funext x; simp only [Function.comp]; split
+        · rw [attach_name]
+        · rfl
+      rw [this, ← h.2]
+      cases G.find? (fun x => x.name == n) with
+      | none => rfl
+      | some t =>
+        simp only [Option.map_some]
+        split
+        · unfold attach; split <;> rfl
+        · rfl
+  app := by
+    intro G G' h t hf
+    have hne : (t.name == n) = false := by
+      cases hn : G.find? (fun x => x.name == n) with
+      | none => rw [hn] at h; cases h.2
+      | some u =>
+        have hu := List.find?_some hn
+        have hm := List.mem_of_find?_eq_some hn
+        have := List.find?_eq_none.1 hf u hm
+        cases hb : (t.name == n) with
+        | false => rfl
+        | true =>
+          exfalso; apply this
+          have e1 : u.name = n := by simpa using hu
+          have e2 : t.name = n := by simpa using hb
+          simp [e1, e2]
+    refine ⟨?_, ?_⟩
+    · rw [h.1, List.map_append]
+      simp [descrSet, hne]
+    · rw [List.find?_append, ← h.2]
+      cases G.find? (fun x => x.name == n) with
+      | none => have := h.2; simp_all
+      | some u => rfl
+
+def FDescr (n text : Bytes) (x0 : Option Bytes) : Frames := ⟨EqR, EqR, QDescr n text x0⟩
+
+theorem FDescr.out {n text : Bytes} {x0 : Option Bytes} {d d' : Cat} (h : (FDescr n text x0).Rel d d') :
+    d' = d.updTag n (fun t => { t with descr := some text }) ∧
+      (d.getTag n).map (·.descr) = some x0 := by
+  obtain ⟨⟨h1, h2, h3, h4, h5, h6⟩, hs, ht, ⟨hg, hx⟩⟩ := h
+  refine ⟨?_, hx⟩
+  have hs : d'.servers = d.servers := hs
+  have ht : d'.types = d.types := ht
+  have hg : d'.tags = d.tags.map (descrSet n text) := hg
+  cases d; cases d'
+  simp only [Cat.updTag] at *
+  simp_all
+  rfl
+
+theorem descr_lift (banned : List Kind) (anc : List Up) (ts : List BTree) (c : Cat) (n text : Bytes)
+    (x0 : Option Bytes) (hx : (c.getTag n).map (·.descr) = some x0)
+    (hp : allF (fun d => d.kind != .TAG) ts = true) (ha : ∀ u ∈ anc, (u.d.kind != .TAG) = true) :
+    RRel (FDescr n text x0).Rel (addForest banned anc ts c)
+      (addForest banned anc ts (c.updTag n (fun t => { t with descr := some text }))) :=
+  lift (F := FDescr n text x0) (tagFrame_descr n text x0) banned (fun d => d.kind != .TAG)
+    (fun d anc _ ha => ⟨fun _ => typeFrame_eq, fun _ => serverFrame_eq, fun _ p r e hk => by
+      have := ha p (by rw [e]; exact List.mem_cons_self)
+      rw [bne_iff_ne] at this
+      exact absurd (by simpa using hk) this⟩)
+    anc ts c _ hp ha ⟨⟨rfl, rfl, rfl, rfl, rfl, rfl⟩, rfl, rfl, ⟨rfl, hx⟩⟩
+
+/-- the catalog keeps the tag names it has -/
+def QHas (n : Bytes) (G G' : List TagM) : Prop := G' = G ∧ n ∈ G.map (·.name)
+
+theorem tagFrame_has (n : Bytes) : TagFrame (QHas n) where
+  find h m := by rw [h.1]
+  upd h m i := ⟨by rw [h.1], by
+    rw [map_name_upd]; exact h.2
+    intro x; split
+    · exact attach_name i x
+    · rfl⟩
+  app h t _ := ⟨by rw [h.1], by rw [List.map_append]; exact List.mem_append_left _ h.2⟩
+
+theorem descrFrame_has (n : Bytes) : DescrFrame (QHas n) where
+  find h m := by rw [h.1]
+  upd h m text := ⟨by rw [h.1], by
+    rw [map_name_upd]; exact h.2
+    intro x; split <;> rfl⟩
+
+def FHas (n : Bytes) : Frames := ⟨EqR, EqR, QHas n⟩
+
+theorem has_lift (banned : List Kind) (anc : List Up) (ts : List BTree) {c d : Cat} (n : Bytes)
+    (hn : n ∈ c.tags.map (·.name)) (h : addForest banned anc ts c = .ok d) : n ∈ d.tags.map (·.name) := by
+  have := lift (F := FHas n) (tagFrame_has n) banned (fun _ => true)
+    (fun d anc _ _ => ⟨fun _ => typeFrame_eq, fun _ => serverFrame_eq, fun _ _ _ _ _ => descrFrame_has n⟩)
+    anc ts c c (allF_true ts) (fun _ _ => rfl) ⟨⟨rfl, rfl, rfl, rfl, rfl, rfl⟩, rfl, rfl, ⟨rfl, hn⟩⟩
+  rw [h] at this
+  exact this.g.2
 
 end JSight.BuildPerm
